@@ -474,9 +474,10 @@ pub struct AddressIterator {
     pub current: u16,
     pub remain: u16,
 }
-#[derive(Clone, Copy, PartialEq, Eq)]
+#[derive(Default, Clone, Copy, PartialEq, Eq)]
 pub enum ChannelLoggingMode {
 
+    #[default]
     Verbose,
 
     StateChanges,
@@ -635,10 +636,12 @@ pub fn limited_count(self, limit: u16) -> (r: Result<Self, InvalidRange>)
         r is Ok ==> r->Ok_0 == self,
         (self.wf() && r is Err) ==> r->Err_0 == InvalidRange::CountTooLargeForType(self.count, limit),
 {
-        if self.count > limit {
-            return Err(InvalidRange::CountTooLargeForType(self.count, limit));
+        // the fields are public, so a range built as a struct literal was never validated
+        let range = (match Self::try_from(self.start, self.count) { Ok(v__) => v__, Err(e__) => { return Err(e__) } });
+        if range.count > limit {
+            return Err(InvalidRange::CountTooLargeForType(range.count, limit));
         }
-        Ok(self)
+        Ok(range)
     }
 }
 
